@@ -169,6 +169,14 @@ def run_case(Env, case):
                           'offset': fr(e.offset)}
     except Exception:
         pass
+    if case.get('dur') and not case.get('mc'):
+        # the duration property (the only Env property with a setter), last: it changes the object
+        try:
+            before = [fr(v) for v in e.times]
+            e.duration = pf(case['dur'])
+            out['dur'] = {'before': before, 'after': [fr(v) for v in e.times], 'get': fr(e.duration)}
+        except Exception as ex:
+            out['dur'] = f'E:{type(ex).__name__}'
     return out
 
 
